@@ -54,3 +54,18 @@ _p("C07", "other", _TECH,
    "Mixed level: per-function obligations listed in obligation_table are discharged for all inputs (unbounded n); clauses "
    "without a discharged obligation are decided only by the labelled bounded stand-ins in coverage.bounded.",
    rule="bounded part: see coverage.bounded[*].bound; a case is non-trivial when the tableau/operation is not the identity case")
+
+
+_p("C01", "other", _TECH,
+   "Deductive: for every accepted operation class x register-type mix x measurement setting, the per-operation dispatch of "
+   "BOTH compilers is proved (symbolic register numbers) to perform exactly the textbook effect trace on the state "
+   "representation (photons indexed before emitters, X iff outcome 1, reset after measure-CNOT-reset, outcome written to the "
+   "classical register); Stabilizer wrapper methods -> tableau functions -> per-row rules -> textbook matrices (L3) are "
+   "proved for all sizes. Bounded: exhaustive short circuits and random long circuits against an independent state-vector "
+   "semantics, both backends, all outcome branches.",
+   "Trusted: T-stab, T-meas, T-commute; dm matrix builders and DensityMatrix methods are abstract tokens in the proof and "
+   "are decided by the bounded stand-in only; the compile loop itself is covered by the bounded stand-in only; S3 floats.",
+   "DESIGN.md §5 C01",
+   "Mixed level: dispatch/wrapper/tableau obligations discharged for all inputs; dm operator algebra and the compile loop "
+   "are bounded-only (labelled).",
+   rule="bounded part: see coverage.bounded[*].bound")
